@@ -32,7 +32,9 @@ Definition firstn_z (n : Z) (bs : list Z) : list Z :=
   if n <? zlen bs then firstn (Z.to_nat n) bs else bs.
 Definition read_at (img : list Z) (off n : Z) : list Z := firstn_z n (skipn_z off img).
 (* stream.read(n) at the cursor [cur]: the bytes and the cursor afterwards (a short read at EOF
-   advances by what was read) *)
+   advances by what was read).  notes.py reads through _read_at_most(elffile, n) =
+   stream.read(min(n, max(stream_len - tell, 0))): the same bytes, without asking for more than
+   the file holds *)
 Definition read_cur (img : list Z) (cur n : Z) : list Z * Z :=
   let bs := read_at img cur n in (bs, cur + zlen bs).
 (* construct Field(n): exactly n bytes or FieldError *)
